@@ -65,8 +65,13 @@ func c04Gen(r *kit.Rand, idx int) c04Case {
 	n := r.Range(6, 14)
 	for i := 0; i < n; i++ {
 		var op c04Op
-		k := r.Intn(20)
+		k := r.Intn(21)
 		switch {
+		case k == 20 && len(live) > 0:
+			// an upload that the server must reject (the content is a blob of the pool, probably referenced by
+			// listed models, the digest in the URL is another spelling of its digest or another digest), or a
+			// repeated correct upload: neither may touch what is stored
+			op = c04Op{Op: "upload", Blob: r.Intn(3), From: kit.Pick(r, []string{"upper", "other", "dash-upper", "same", "short"})}
 		case k < 5 || len(live) == 0:
 			op = c04Op{Op: "create-files", Name: pick(), Blob: r.Intn(3), Dash: r.Chance(1, 6)}
 		case k < 8:
@@ -265,6 +270,25 @@ func c04Run(bin, work string, c *c04Case, seed uint64, rep *kit.Report) (vs []c0
 			res = srv.Pull(fullName, true, nil)
 		case "show":
 			res = srv.Show(op.Name)
+		case "upload":
+			d := sha(pool[op.Blob])
+			hexpart := strings.TrimPrefix(d, "sha256:")
+			switch op.From {
+			case "upper":
+				d = "sha256:" + strings.ToUpper(hexpart)
+			case "dash-upper":
+				d = "sha256-" + strings.ToUpper(hexpart)
+			case "other":
+				d = sha([]byte(fmt.Sprintf("another revision %d", oi)))
+			case "short":
+				d = "sha256:" + hexpart[:63]
+			}
+			st, body := srv.UploadBlob(d, pool[op.Blob])
+			res = apiResult{Status: st}
+			if st != 200 && st != 201 {
+				res.Err = fmt.Sprintf("%d %s", st, strings.TrimSpace(body))
+			}
+			rep.Count(fmt.Sprintf("upload_%s_status_%d", op.From, st), 1)
 		case "debris":
 			// find the directory of an existing manifest of that model (the store's own spelling) and plant the file there
 			full := c04Full(op.Name)
@@ -505,7 +529,7 @@ func runC04() {
 	rep := kit.NewReport("C04")
 	cfg := rep.Cfg()
 	defer rep.Flush()
-	rep.Set("rule", "case i = PRNG(seed,'C04',i): 7-15 operations through the public API of the real server binary over a pool of 12 names (case variants, namespaces, a second host) x 6 tags: create from uploaded GGUF blobs (pool of 3, digest sent as sha256:<hex> or sha256-<hex>), create from an existing model with template/system/license/parameter overrides, copy, delete (also by case variant), fault-free pull of published models that share blobs with the created ones, show, planted debris (an empty or truncated manifest file under a sibling tag of an existing model, as an interrupted create/copy/pull leaves it), restart (start-up prune, or OLLAMA_NOPRUNE); every history ends with a pruning restart. After every operation the store directory is read and re-hashed: every listed model shows and has all layers + config with matching size/SHA-256; manifests and blobs of models not named by the operation are byte-identical; after a pruning restart blobs == referenced digests; no two listed names equal under case folding; created => listed, deleted => not listed, copied => same manifest. Non-trivial & distinct = distinct (op-kind sequence, outcomes) among histories in which at least two models shared a blob when a delete/create/prune ran")
+	rep.Set("rule", "case i = PRNG(seed,'C04',i): 7-15 operations through the public API of the real server binary over a pool of 12 names (case variants, namespaces, a second host) x 6 tags: create from uploaded GGUF blobs (pool of 3, digest sent as sha256:<hex> or sha256-<hex>), create from an existing model with template/system/license/parameter overrides, copy, delete (also by case variant), blob uploads under a digest that does not match the content (other letter case, another digest, too short) or repeated correct uploads, fault-free pull of published models that share blobs with the created ones, show, planted debris (an empty or truncated manifest file under a sibling tag of an existing model, as an interrupted create/copy/pull leaves it), restart (start-up prune, or OLLAMA_NOPRUNE); every history ends with a pruning restart. After every operation the store directory is read and re-hashed: every listed model shows and has all layers + config with matching size/SHA-256; manifests and blobs of models not named by the operation are byte-identical; after a pruning restart blobs == referenced digests; no two listed names equal under case folding; created => listed, deleted => not listed, copied => same manifest. Non-trivial & distinct = distinct (op-kind sequence, outcomes) among histories in which at least two models shared a blob when a delete/create/prune ran")
 	rep.Set("assumptions", []string{"operations are issued one at a time (concurrent store operations are C15's subject)", "create-from is only issued for sources that exist (a missing source would contact the public registry)"})
 	bin := os.Getenv("VERIF_OLLAMA_BIN")
 	work, err := os.MkdirTemp("", "verif-c04-")
